@@ -509,7 +509,7 @@ pub const D1S_PROBES: &[&str] = &[
     "record_65535", "noncompliant_order", "payload_moved_with_parsed_nonempty", "held_back_header_seen",
     "dest_len_zero", "compress_with_stream_data", "stopped_mid_stream", "into_input_checked", "abort_in_stream",
     "early_advance", "rejected_selection", "lookahead_at_handoff", "handoff_full_buffer", "chain_requests_2plus",
-    "exact_fill_read", "noise_getvalues", "noise_unknown_type", "noise_foreign_begin", "noise_stale_params",
+    "exact_fill_read", "noise_getvalues", "noise_unknown_type", "noise_foreign_begin", "noise_stale_params", "noise_huge_record",
 ];
 
 pub struct ReqCase {
@@ -604,8 +604,8 @@ pub fn stream_scenario(cx: &mut Ctx, c18: bool) -> VResult {
         let policy = if c18 {
             match cx.ch.weighted(&[2, 3, 2]) { 0 => ReadPolicy::Full, 1 => ReadPolicy::Partial, _ => ReadPolicy::Skip }
         } else {
-            // C02: advance only after end-of-stream was reported
-            ReadPolicy::Full
+            // C02: mostly read to the end; sometimes advance early (mid-record included), which is a legal schedule
+            match cx.ch.weighted(&[4, 1, 1]) { 0 => ReadPolicy::Full, 1 => ReadPolicy::Partial, _ => ReadPolicy::Skip }
         };
         if c18 {
             // illegal selections at arbitrary moments: rejected, nothing changes
@@ -615,7 +615,7 @@ pub fn stream_scenario(cx: &mut Ctx, c18: bool) -> VResult {
         d.read_phase(cx, policy, oracle)?;
         if d.failed.is_some() { break; }
         if policy != ReadPolicy::Full { cx.probe("early_advance"); }
-        if !c18 && !d.saw_end && d.pos >= d.cap {
+        if !c18 && policy == ReadPolicy::Full && !d.saw_end && d.pos >= d.cap {
             // complete wire, Full policy: end must have been seen
             vfail!("c02_stream_end", "missing", "all bytes fed but stream_end was not reported for stream {}", d.streams[i]);
         }
